@@ -238,6 +238,10 @@ void Groups::evalArguments( int argc, char* argv[]) noexcept( false)
                                     + "'");
          throw runtime_error( "Unknown argument '" + ai->mArgString + "'");
       } // end if
+
+      // the rest of the command line belongs to the argument just handled
+      if (result == Handler::ArgResult::last)
+         break;   // for
    } // end for
 
    if (!mContinueAfterUsage || !usage_printed)
